@@ -14,6 +14,8 @@ use tokio::io::{AsyncRead, AsyncReadExt, AsyncWrite, ReadBuf};
 #[derive(Clone, Debug, PartialEq)]
 pub enum AOp {
     Read(usize, usize),
+    /// like Read, over ReadBuf::uninit with only `init` unfilled bytes initialised
+    ReadU(usize, usize, usize),
     Write(Vec<u8>),
     Flush,
     Shutdown,
@@ -25,6 +27,7 @@ pub fn ops_str(ops: &[AOp]) -> String {
     ops.iter()
         .map(|o| match o {
             AOp::Read(p, c) => format!("r{}:{}", p, c),
+            AOp::ReadU(p, c, i) => format!("r{}:{}:{}", p, c, i),
             AOp::Write(d) => format!("w{}", hex(d)),
             AOp::Flush => "f".into(),
             AOp::Shutdown => "s".into(),
@@ -40,8 +43,12 @@ pub fn parse_ops(s: &str) -> Option<Vec<AOp>> {
     for t in s.split(',') {
         v.push(match t.as_bytes()[0] {
             b'r' => {
-                let (p, c) = t[1..].split_once(':')?;
-                AOp::Read(p.parse().ok()?, c.parse().ok()?)
+                let f: Vec<&str> = t[1..].split(':').collect();
+                match f.len() {
+                    2 => AOp::Read(f[0].parse().ok()?, f[1].parse().ok()?),
+                    3 => AOp::ReadU(f[0].parse().ok()?, f[1].parse().ok()?, f[2].parse().ok()?),
+                    _ => return None,
+                }
             }
             b'w' => AOp::Write(unhex(&t[1..])?),
             b'f' if t.len() == 1 => AOp::Flush,
@@ -52,10 +59,17 @@ pub fn parse_ops(s: &str) -> Option<Vec<AOp>> {
     Some(v)
 }
 
-fn poll_read_op<T: AsyncRead + Unpin>(x: &mut T, prefill: usize, cap: usize) -> String {
+fn poll_read_op<T: AsyncRead + Unpin>(x: &mut T, prefill: usize, cap: usize, init: Option<usize>) -> String {
     let mut storage = vec![0x2eu8; prefill + cap];
-    let mut rb = ReadBuf::new(&mut storage);
+    let mut ustorage = vec![std::mem::MaybeUninit::<u8>::uninit(); prefill + cap];
+    let mut rb = match init {
+        None => ReadBuf::new(&mut storage),
+        Some(_) => ReadBuf::uninit(&mut ustorage),
+    };
     rb.put_slice(&vec![0x50u8; prefill]);
+    if let Some(i) = init {
+        rb.initialize_unfilled_to(i.min(cap));
+    }
     let w = Waker::noop();
     let mut cx = Context::from_waker(&w);
     let r = catch_unwind(AssertUnwindSafe(|| Pin::new(&mut *x).poll_read(&mut cx, &mut rb)));
@@ -73,7 +87,8 @@ fn drive<T: AsyncRead + AsyncWrite + Unpin>(x: &mut T, ops: &[AOp]) -> String {
     let mut out: Vec<String> = vec![];
     for op in ops {
         match op {
-            AOp::Read(p, c) => out.push(poll_read_op(x, *p, *c)),
+            AOp::Read(p, c) => out.push(poll_read_op(x, *p, *c, None)),
+            AOp::ReadU(p, c, i) => out.push(poll_read_op(x, *p, *c, Some(*i))),
             AOp::Write(d) => match Pin::new(&mut *x).poll_write(&mut cx, d) {
                 Poll::Ready(Ok(n)) => out.push(format!("wok{}", n)),
                 Poll::Ready(Err(e)) => out.push(format!("werr{}", kind_num(e.kind()))),
@@ -101,8 +116,10 @@ fn drive<T: AsyncRead + AsyncWrite + Unpin>(x: &mut T, ops: &[AOp]) -> String {
 fn drive_reads<T: AsyncRead + Unpin>(x: &mut T, ops: &[AOp]) -> String {
     let mut out: Vec<String> = vec![];
     for op in ops {
-        if let AOp::Read(p, c) = op {
-            out.push(poll_read_op(x, *p, *c));
+        match op {
+            AOp::Read(p, c) => out.push(poll_read_op(x, *p, *c, None)),
+            AOp::ReadU(p, c, i) => out.push(poll_read_op(x, *p, *c, Some(*i))),
+            _ => {}
         }
     }
     if out.is_empty() {
@@ -233,6 +250,10 @@ fn random_ops(rng: &mut Rng) -> Vec<AOp> {
             2 | 3 => {
                 let l = [0usize, 1, 2, 4, 9, 16, 17, 64, 65][rng.below(9)];
                 AOp::Write(rng.bytes(l, b"XYZ\n"))
+            }
+            7 => {
+                let c = [1usize, 2, 4, 9, 16, 33, 40][rng.below(7)];
+                AOp::ReadU(rng.below(3), c, rng.below(c + 1))
             }
             _ => AOp::Read(rng.below(3), [0usize, 0, 1, 2, 3, 4, 8, 9, 16, 33][rng.below(10)]),
         })
